@@ -72,7 +72,30 @@ NA_FIXED = {
         "ellipse geometry in reals",
 }
 
+CLAIMED["C12"] = dict(
+  technique="TLA+ model of the Simulation caches with provenance "
+            "(SimCache.tla) checked by TLC + replay of TLC-generated "
+            "behaviours (graph edge cover and simulation) on real "
+            "emg3d.Simulation objects with projection and fresh-simulation "
+            "comparison after every step",
+  text="TLC checks FreshResults, CachesCoherent, CopyIndependent and "
+       "TolRestored for all histories (<=6 operations quick; the complete "
+       "abstract graph thorough) of the C12 alphabet over two simulation "
+       "objects, in-memory and file-based.  Behaviours enumerated by TLC are "
+       "replayed on real simulations (2 survey/model variants, electric, "
+       "magnetic and relative receivers, NaN data): every returned value is "
+       "compared with a fresh simulation's value for the provenance the "
+       "spec predicts and the projected object state with the spec state, "
+       "so a dropped cache reset or a stale cache is a mismatch.",
+  note="Trusted: TLC, the projection in harness/simreplay.py (reads private "
+       "attributes named in the property's anchors), gridding='same'.  "
+       "Known finding: shared file_dir of copies in file mode.",
+  ref="DESIGN.md section 5 (C12)", engine="tlc-simcache")
+
 ENGINES = [
+ dict(name="tlc-simcache", path="spec/SimCache.tla",
+      serves_properties=["C12"],
+      kind_free_text="TLA+ spec + TLC exhaustive + behaviour replay"),
  dict(name="tlc-solve", path="spec/Solve.tla", serves_properties=["C01"],
       kind_free_text="TLA+ spec + TLC exhaustive + TLC trace validation"),
  dict(name="tlc-mgcycle", path="spec/MGCycle.tla",
